@@ -1052,12 +1052,18 @@ func (ex *Exec) rangeStmt(st *State, s *ast.RangeStmt, label string, k func(*Sta
 // then started from the variable's value before the loop, and invariants about it were evaluated
 // on that stale value (unsound; found when a seeded change in xrand.rSample was not reported).
 func (ex *Exec) preBox(st *State, lp *loopParts) {
-	fr := st.frame
-	if fr.info == nil {
+	if st.frame.info == nil {
 		return
 	}
+	ex.preBoxNodes(st, st.frame.info, lp.written)
+}
+
+// preBoxNodes: the same for any piece of code that is executed an arbitrary number of times from a
+// havocked state (loop bodies, callbacks of `repeats` contracts).
+func (ex *Exec) preBoxNodes(st *State, info *types.Info, nodes []ast.Node) {
+	fr := st.frame
 	var ids []*ast.Ident
-	for _, n := range lp.written {
+	for _, n := range nodes {
 		if n == nil {
 			continue
 		}
@@ -1072,7 +1078,7 @@ func (ex *Exec) preBox(st *State, lp *loopParts) {
 			case *ast.CallExpr:
 				if sel, ok := ast.Unparen(x.Fun).(*ast.SelectorExpr); ok {
 					if id, ok := ast.Unparen(sel.X).(*ast.Ident); ok {
-						if s := fr.info.Selections[sel]; s != nil && s.Kind() == types.MethodVal {
+						if s := info.Selections[sel]; s != nil && s.Kind() == types.MethodVal {
 							if f, ok := s.Obj().(*types.Func); ok {
 								if sig, ok := f.Type().(*types.Signature); ok && sig.Recv() != nil {
 									if _, isPtr := types.Unalias(sig.Recv().Type()).(*types.Pointer); isPtr {
@@ -1090,7 +1096,7 @@ func (ex *Exec) preBox(st *State, lp *loopParts) {
 		})
 	}
 	for _, id := range ids {
-		obj := fr.info.ObjectOf(id)
+		obj := info.ObjectOf(id)
 		if obj == nil {
 			continue
 		}
